@@ -18,6 +18,7 @@ import (
 	"github.com/buildbarn/bb-storage/pkg/blobstore/slicing"
 	"github.com/buildbarn/bb-storage/pkg/digest"
 	"github.com/buildbarn/bb-storage/pkg/filesystem"
+	"github.com/buildbarn/bb-storage/pkg/util"
 	"google.golang.org/grpc/codes"
 	"google.golang.org/grpc/status"
 )
@@ -254,6 +255,15 @@ func (c *fakeCAS) Put(ctx context.Context, d digest.Digest, b buffer.Buffer) err
 		c.puts = append(c.puts, casPut{who: who, key: d, failed: true})
 		c.mu.Unlock()
 		return status.Error(codes.Unavailable, "fake CAS is down")
+	}
+	if err := util.StatusFromContext(ctx); err != nil {
+		// The caller's context is done: the transfer is refused, the
+		// way a gRPC client refuses it; the buffer is still owned.
+		b.Discard()
+		c.mu.Lock()
+		c.puts = append(c.puts, casPut{who: who, key: d, failed: true})
+		c.mu.Unlock()
+		return err
 	}
 	data, err := b.ToByteSlice(1 << 20)
 	if err == nil && c.received != nil {
